@@ -2710,7 +2710,68 @@ fn generate_expression(
                     }
                 }
 
-                let inner = try_implicit_truncate(input_tyl, unmod_tyl, inner);
+                // An array or struct cast to a scalar gives its first element
+                // Metal has no such cast so we name that element
+                fn first_element(
+                    value: ast::Expression,
+                    type_id: ir::TypeId,
+                    context: &GenerateContext,
+                ) -> Option<ast::Expression> {
+                    let module = context.module;
+                    let unmodified_id = module.type_registry.remove_modifier(type_id);
+                    match module.type_registry.get_type_layer(unmodified_id) {
+                        ir::TypeLayer::Array(element_id, Some(length)) if length > 0 => {
+                            let element = ast::Expression::ArraySubscript(
+                                Box::new(Located::none(value)),
+                                Box::new(Located::none(ast::Expression::Literal(
+                                    ast::Literal::IntUnsigned32(0),
+                                ))),
+                            );
+                            first_element(element, element_id, context)
+                        }
+                        ir::TypeLayer::Struct(id) => {
+                            let members = &module.struct_registry[id.0 as usize].members;
+                            for (member_index, member) in members.iter().enumerate() {
+                                let member_name = context.name_map.get_struct_member_name(
+                                    module,
+                                    id,
+                                    member_index as u32,
+                                );
+                                let member_value = ast::Expression::Member(
+                                    Box::new(Located::none(value.clone())),
+                                    ast::ScopedIdentifier::trivial(member_name),
+                                );
+                                let first = first_element(member_value, member.type_id, context);
+                                if first.is_some() {
+                                    return first;
+                                }
+                            }
+                            None
+                        }
+                        ir::TypeLayer::Scalar(_) | ir::TypeLayer::Vector(_, 1) => Some(value),
+                        ir::TypeLayer::Vector(_, _) => Some(ast::Expression::Member(
+                            Box::new(Located::none(value)),
+                            ast::ScopedIdentifier::trivial("x"),
+                        )),
+                        _ => None,
+                    }
+                }
+
+                let inner = if matches!(
+                    input_tyl,
+                    ir::TypeLayer::Array(_, _) | ir::TypeLayer::Struct(_)
+                ) {
+                    let to_scalar = matches!(
+                        unmod_tyl,
+                        ir::TypeLayer::Scalar(_) | ir::TypeLayer::Vector(_, 1)
+                    );
+                    match first_element(inner, input_ty, context) {
+                        Some(first) if to_scalar => first,
+                        _ => return Err(GenerateError::UnsupportedCast),
+                    }
+                } else {
+                    try_implicit_truncate(input_tyl, unmod_tyl, inner)
+                };
 
                 let ty = generate_type_id(*type_id, context)?;
                 ast::Expression::Cast(Box::new(ty), Box::new(Located::none(inner)))
